@@ -321,8 +321,8 @@ Section Guards.
 
   (* nillable (xsi:nil): inside the fragment for fields of a simple type (scalar or list, no tokens, no value
      default) HOLDING VALUES WITH A NON-EMPTY TEXT (fits): the serializer adds xsi:nil="true" to falsy values
-     (0, false), the writer drops it again because the element has content.  None in a nillable field is
-     written <f xsi:nil="true"/> (reads back; not proved); an empty text, a class-typed nillable field or a
+     (0, false), the writer drops it again because the element has content; None in a nillable scalar field is
+     written <f xsi:nil="true"/> and read back as None.  An empty text, a class-typed nillable field or a
      nillable class are refuted (C01_nil_conflation_refuted, finding C01-F1) *)
   Definition wf_elem (v : xvar) : bool :=
     v_is KElement v && var_common v && nonempty_s (v_qname v) && wrapper_ok v
@@ -561,7 +561,7 @@ Section Guards.
     match v_factory v, v_tokens_factory v with
     | None, None =>
         match x with
-        | VNone => match v_default v with DNone => negb (v_nillable v) | _ => false end
+        | VNone => match v_default v with DNone => true | _ => false end
         | _ => fits_item rec v x
         end
     | Some f, None =>
